@@ -742,9 +742,14 @@ func (t *thread) checkSignatureEncoding(sig []byte) error {
 	// transaction with the complement while still being a valid signature that
 	// verifies.  This would result in changing the transaction hash and thus is
 	// a source of malleability.
+	//
+	// A signature whose R or S is not below the order of the curve has no such
+	// complement and never verifies: it is not a high S signature.
 	if t.hasFlag(scriptflag.VerifyLowS) {
+		order := bec.S256().N
+		rValue := new(big.Int).SetBytes(sig[rOffset : rOffset+rLen])
 		sValue := new(big.Int).SetBytes(sig[sOffset : sOffset+sLen])
-		if sValue.Cmp(halfOrder) > 0 {
+		if rValue.Cmp(order) < 0 && sValue.Cmp(order) < 0 && sValue.Cmp(halfOrder) > 0 {
 			return errs.NewError(errs.ErrSigHighS, "signature is not canonical due to unnecessarily high S value")
 		}
 	}
